@@ -551,7 +551,10 @@ func (r *FEngine) errExpiry(key []byte) int64 {
 
 		_, _ = r.legacy.Errors.Walk(func(e cache.Entry) error {
 			if string(e.Key()) == string(key) {
-				out = e.(*cache.TraitEntry).E
+				out = e.ExpireAt().UnixNano()
+				if e.ExpireAt().Unix() == 0 {
+					out = 0
+				}
 			}
 
 			return nil
@@ -566,7 +569,7 @@ func (r *FEngine) errExpiry(key []byte) int64 {
 
 	_, _ = r.generic.Errors.Walk(func(e cache.EntryOf[error]) error {
 		if string(e.Key()) == string(key) {
-			out = e.(*cache.TraitEntryOf[error]).E
+			out = expiryOf(e.ExpireAt())
 		}
 
 		return nil
@@ -926,4 +929,12 @@ func (r *FEngine) Exec(gets []GetSpec, pol Policy) []int {
 	}
 
 	return tids
+}
+
+func expiryOf(t time.Time) int64 {
+	if t.Unix() == 0 && t.Nanosecond() == 0 {
+		return 0
+	}
+
+	return t.UnixNano()
 }
